@@ -253,3 +253,5 @@ func issueCredential(kp *KeyPair, secret *gbig.Int, attrs []*gbig.Int, rng *Rng)
 func useRng(rng *Rng) { rand.Reader = rng }
 
 func useReader(r io.Reader) { rand.Reader = r }
+
+func currentReader() io.Reader { return rand.Reader }
